@@ -58,6 +58,10 @@ type c12Op struct {
 	A, B int64
 	Hash []byte
 	sub  *submission
+	// add-chain ops: what is actually submitted - the whole chain, or a legal but truncated one
+	// (RFC 6962 s4.1: trailing certificates the log knows may be left out)
+	submitted [][]byte
+	trunc     string // "" | cert-alone | precert-alone | precert+preissuer
 	// decode ops: the bytes handed to the entry decoders
 	leafIn, extra []byte
 	mutNote       string
@@ -145,6 +149,10 @@ func (w *c12World) Init(s *kernel.Sim) {
 	}
 	// submissions for the add-chain ops: one of each entry type
 	w.subs = append(w.subs, w.pki.newSubmission(t, 100, false, true), w.pki.newSubmission(t, 101, true, true))
+	if w.pki.pre != nil {
+		// and a precertificate that certainly comes from the precert-signing certificate
+		w.subs = append(w.subs, w.pki.newSubmissionVia(t, 102, true, true, 1))
+	}
 
 	lc, err := client.New("http://log.test/sim", &http.Client{Transport: &transport{s: s}},
 		jsonclient.Options{PublicKeyDER: w.logKey.SPKI, Logger: quietLogger{}})
@@ -166,8 +174,23 @@ func (w *c12World) newOp() *c12Op {
 	switch op.Kind {
 	case "add-chain":
 		op.sub = w.subs[0]
+		op.submitted = op.sub.rawChain()
+		if t.Chance(1, 4) {
+			op.trunc, op.submitted = "cert-alone", op.submitted[:1]
+		}
 	case "add-pre-chain":
-		op.sub = w.subs[1]
+		op.sub = w.subs[1+t.Intn(len(w.subs)-1)]
+		op.submitted = op.sub.rawChain()
+		// a chain that stops short of the final issuer: the client cannot compute the issuer key
+		// hash the SCT covers; the harness still knows the whole chain and judges against it
+		if t.Chance(1, 2) {
+			viaPre := op.sub.issuers[0].IsPreIssuer()
+			if viaPre && t.Chance(1, 2) {
+				op.trunc, op.submitted = "precert+preissuer", op.submitted[:2]
+			} else {
+				op.trunc, op.submitted = "precert-alone", op.submitted[:1]
+			}
+		}
 	case "get-sth-consistency":
 		op.B = int64(t.Range(1, int(n)))
 		op.A = int64(t.Range(0, int(op.B)))
@@ -216,7 +239,10 @@ func (w *c12World) launch(op *c12Op) {
 	} else {
 		op.ctx, op.cancel = context.WithCancel(w.ctx)
 	}
-	s.Logf("%s %s A=%d B=%d deadline=%v %s", op.Party, op.Kind, op.A, op.B, op.deadlineT, op.mutNote)
+	s.Logf("%s %s A=%d B=%d deadline=%v %s%s", op.Party, op.Kind, op.A, op.B, op.deadlineT, op.mutNote, op.trunc)
+	if op.trunc != "" {
+		s.Probe("trunc." + op.trunc)
+	}
 	s.Go(func() { w.run(op) })
 }
 
@@ -242,9 +268,9 @@ func (w *c12World) run(op *c12Op) {
 		case "get-sth":
 			r.STH, r.Err = w.lc.GetSTH(ctx)
 		case "add-chain":
-			r.SCT, r.Err = w.lc.AddChain(ctx, asn1Chain(op.sub.rawChain()))
+			r.SCT, r.Err = w.lc.AddChain(ctx, asn1Chain(op.submitted))
 		case "add-pre-chain":
-			r.SCT, r.Err = w.lc.AddPreChain(ctx, asn1Chain(op.sub.rawChain()))
+			r.SCT, r.Err = w.lc.AddPreChain(ctx, asn1Chain(op.submitted))
 		case "get-sth-consistency":
 			r.Proof, r.Err = w.lc.GetSTHConsistency(ctx, uint64(op.A), uint64(op.B))
 		case "get-proof-by-hash":
